@@ -834,15 +834,25 @@ def unpack_special_typing_primitive(spec: ValueSpec) -> Optional[Expression]:
                 get_class_that_defines_method(method_name, method_loc)
                 != method_loc
                 # not hasattr(spec.builder.cls, method_name)
-                and spec.builder.get_unpack_method_name(
-                    format_name=spec.builder.format_name,
-                    decoder=spec.builder.decoder,
+                and (
+                    spec.builder.get_unpack_method_name(
+                        format_name=spec.builder.format_name,
+                        decoder=spec.builder.decoder,
+                    )
+                    != method_name
+                    or (
+                        spec.builder.dialect is not None
+                        and spec.builder.is_nailed
+                    )
                 )
-                != method_name
             ):
                 builder = spec.builder.__class__(
                     spec.builder.cls,
-                    dialect=spec.builder.dialect,
+                    dialect=(
+                        spec.builder.dialect
+                        if not spec.builder.is_nailed
+                        else None
+                    ),
                     format_name=spec.builder.format_name,
                     default_dialect=spec.builder.default_dialect,
                     attrs=method_loc,
